@@ -23,7 +23,7 @@ type ImplFinality struct {
 // from the in-memory tree and from the headers of all stored world blocks).
 func (in *Inst) ReadFinality() *ImplFinality {
 	W := in.W
-	f := &ImplFinality{Justified: map[int]bool{}, Root: -1, Votes: map[int]map[int]map[int]bool{}}
+	f := &ImplFinality{Justified: map[int]bool{}, Root: Foreign, Votes: map[int]map[int]map[int]bool{}}
 	c := in.Node.Chain.VerifCasper()
 	add := func(order, t, s int) {
 		if f.Votes[order] == nil {
@@ -83,10 +83,10 @@ func (in *Inst) CheckFinality(ref *Ref, complete bool) []Finding {
 			out = append(out, Finding{"justified-without-supermajority-from-justified-source", fmt.Sprintf("node marks %s justified; reference: %s", W.Names[j], ref.Summary())})
 		}
 	}
-	if f.Root < 0 {
+	if f.Root < Genesis {
 		out = append(out, Finding{"finalized-root-foreign", "last finalized checkpoint is not a world block"})
-	} else if f.Root != 0 && !ref.Finalized[f.Root] {
-		out = append(out, Finding{"finalized-without-justified-direct-child", fmt.Sprintf("node's last finalized is %s; reference: %s", W.Names[f.Root], ref.Summary())})
+	} else if f.Root != 0 && f.Root != Genesis && !ref.Finalized[f.Root] {
+		out = append(out, Finding{"finalized-without-justified-direct-child", fmt.Sprintf("node's last finalized is %s; reference: %s", W.NameOf(f.Root), ref.Summary())})
 	}
 	if complete {
 		for j := range ref.Justified {
@@ -95,17 +95,17 @@ func (in *Inst) CheckFinality(ref *Ref, complete bool) []Finding {
 			}
 		}
 		if f.Root != ref.Root {
-			out = append(out, Finding{"finalized-differs-from-reference", fmt.Sprintf("node root %d (%s), reference root %s", f.Root, nameOr(W, f.Root), W.Names[ref.Root])})
+			out = append(out, Finding{"finalized-differs-from-reference", fmt.Sprintf("node root %d (%s), reference root %s", f.Root, nameOr(W, f.Root), W.NameOf(ref.Root))})
 		}
 	}
 	return out
 }
 
 func nameOr(w *World, i int) string {
-	if i < 0 {
+	if i < Genesis {
 		return "foreign"
 	}
-	return w.Names[i]
+	return w.NameOf(i)
 }
 
 // CheckSlashing: no validator slot has two recorded votes with equal target height and different
@@ -136,16 +136,16 @@ func (in *Inst) CheckSlashing() []Finding {
 		for a := 0; a < len(vs); a++ {
 			for b := a + 1; b < len(vs); b++ {
 				x, y := vs[a], vs[b]
-				if x.s < 0 || y.s < 0 {
+				if x.s < Genesis || y.s < Genesis {
 					continue
 				}
-				hxs, hxt := W.Blocks[x.s].Height, W.Blocks[x.t].Height
-				hys, hyt := W.Blocks[y.s].Height, W.Blocks[y.t].Height
+				hxs, hxt := W.HeightOf(x.s), W.HeightOf(x.t)
+				hys, hyt := W.HeightOf(y.s), W.HeightOf(y.t)
 				if hxt == hyt && x.t != y.t {
-					out = append(out, Finding{"two-votes-same-target-height", fmt.Sprintf("validator slot %d has votes %s>%s and %s>%s", o, W.Names[x.s], W.Names[x.t], W.Names[y.s], W.Names[y.t])})
+					out = append(out, Finding{"two-votes-same-target-height", fmt.Sprintf("validator slot %d has votes %s>%s and %s>%s", o, W.NameOf(x.s), W.NameOf(x.t), W.NameOf(y.s), W.NameOf(y.t))})
 				}
 				if (hxs < hys && hyt < hxt) || (hys < hxs && hxt < hyt) {
-					out = append(out, Finding{"vote-span-surrounds-another", fmt.Sprintf("validator slot %d has votes %s>%s and %s>%s", o, W.Names[x.s], W.Names[x.t], W.Names[y.s], W.Names[y.t])})
+					out = append(out, Finding{"vote-span-surrounds-another", fmt.Sprintf("validator slot %d has votes %s>%s and %s>%s", o, W.NameOf(x.s), W.NameOf(x.t), W.NameOf(y.s), W.NameOf(y.t))})
 				}
 			}
 		}
